@@ -59,6 +59,22 @@ func behaviouralJudge(env *hx.Env, p *pg.Prog, files hx.Files, nValues int, seed
 	if s.PlanErr != "" || s.Exit != 0 || s.Timeout || s.Dir == "" {
 		return res
 	}
+	// C07, third sentence, read off the text (it needs no execution, and the text need not even compile): a function
+	// without error result neither assigns to err nor tests it
+	for _, m := range p.AllMethods() {
+		f := s.Funcs[funcKeyOf(m)]
+		if f == nil || f.HasErr {
+			continue
+		}
+		for _, ln := range strings.Split(f.Body, "\n") {
+			t := strings.TrimSpace(ln)
+			if strings.Contains(t, ", err = ") || strings.HasPrefix(t, "err = ") || strings.HasPrefix(t, "if err != nil") {
+				res.Issues = append(res.Issues, behIssue{Property: "C07", Class: "error-path", Symptom: "error-capable-call-in-function-without-error-result", Method: m.Name,
+					Detail: "the function has no error result but contains `" + t + "`"})
+				break
+			}
+		}
+	}
 	if ok, _, raw := pg.Build(s.Dir); !ok {
 		if raw == pg.BuildTimeout {
 			res.Timeout = true
